@@ -330,12 +330,12 @@ outer:
 		}
 	}
 
+	vx.applyQuirks()
 	vx.enterAltScreen()
 	vx.enableModes()
 	if !opts.NoSignals {
 		vx.setupSignals()
 	}
-	vx.applyQuirks()
 
 	switch os.Getenv("VAXIS_GRAPHICS") {
 	case "none":
